@@ -65,6 +65,8 @@ class Resource:
 def spell(tape, src, dst, noise=True):
     """Render a reference from resource `src` to resource `dst` in a drawn spelling that every RFC 3986
     normaliser maps back to dst's canonical URL."""
+    if src is dst and noise and src.base_href is None and tape.chance(1, 3, 'sp.fragonly'):
+        return tape.choice(('#top', '#', '#a/b'), 'sp.fragonly.k')       # a reference to a part of the document itself
     path = dst.path
     q = ('?' + dst.query) if dst.query else ''
     frag = ''
